@@ -300,7 +300,11 @@ def r083(ctx):
            "the Q-weighted mixture of the stored ones)", construct="error/gamma of Q")
     # gap
     rg = A2.run(GAP + ".gap", cls_ctx=GAP)
-    A2.formula("R08.3", rg.func, None, rg.ret, A2.entry(rg, "max(self.L - self.L_low, self.L_high - self.L)"), "gap",
+    A2.formula("R08.3", rg.func, None, rg.ret, [A2.entry(rg, s_) for s_ in (
+        "max(self.L - self.L_low, self.L_high - self.L)", "max(self.L_high - self.L, self.L - self.L_low)",
+        # max(a, b) spelled out: b if a < b else a (the same value also when a comparison involves NaN)
+        "(self.L_high - self.L) if (self.L - self.L_low) < (self.L_high - self.L) else (self.L - self.L_low)",
+        "(self.L_high - self.L) if (self.L_high - self.L) > (self.L - self.L_low) else (self.L - self.L_low)")], "gap",
                construct="gap formula")
     ri = A2.run(GAP + ".__init__", cls_ctx=GAP)
     okf = all(ri.final.heap.get((ri.self_term, k)) is ri.params[k] for k in ("L", "L_low", "L_high", "gamma", "error"))
